@@ -406,8 +406,6 @@ def sig_of(text):
 
 def finish_items(ctx, items, prologue, localisable=True):
     out = ctx.out
-    global _last_items
-    _last_items = items
     bad = [it for it in items if it.status not in ('ok', 'unobserved')]
     for it in items:
         if it.status == 'ok':
@@ -677,7 +675,6 @@ def case_notation(ctx, n):
 def run_case(case, ctx):
     kind = case['kind']
     ctx.out.sets['case_kinds'].add(kind)
-    thorough = ctx.tier == 'thorough'
     try:
         if kind == 'tree':
             case_tree(ctx, TREES_PER_CASE)
